@@ -58,12 +58,12 @@ def gen(ctx):
         c.meta["expect"] = [chain]
         cases.append(c)
     # zero-column resultsets: rows counted by end_row / write_row
-    for rows in ([0, 1, 2, 3, 10, 250, 251, 300] if ctx.quick() else list(range(0, 40)) + [250, 251, 252, 1000]):
+    for rows in ([0, 1, 2, 3, 10, 250, 251, 300, 65535, 65536, 65537] if ctx.quick() else list(range(0, 40)) + [250, 251, 252, 1000, 65535, 65536, 65537, 70000, 131072]):
         for binary in (False, True):
             n += 1
             ops = []
             for j in range(rows):
-                t = rng.random()
+                t = rng.random() if rows < 5000 else 0.1
                 if t < 0.4:
                     ops.append("er p")
                 elif t < 0.7:
